@@ -176,6 +176,15 @@ TEMPLATES = [
     "{%(A)s: %(B)s}", "{%(A)s, %(B)s}", "{:%(A)s, %(B)s: %(C)s}", "set(%(A)s)", "unique(%(A)s)", "frequencies(%(A)s)", "count_distinct(%(A)s)",
     "y[%(A)s]", "y[%(A)s] = %(B)s", "y[%(A)s] += %(B)s", "%(A)s |. %(B)s", "%(A)s -. %(B)s", "%(A)s || %(B)s", "%(A)s group_all %(B)s",
     "memoize(\\p -> 1)(%(A)s)", "%(A)s !? %(B)s", "dict([[%(A)s, %(B)s]])", "remove y[%(A)s]",
+    "repeat(7)[%(A)s:%(B)s]", "repeat(7)[%(A)s]", "(1 to 5)[%(A)s:%(B)s]",
+] + [
+    # infinite streams other than repeat: only bounds that do not ask for the end of the stream (a negative bound or a huge
+    # count is a non-terminating / resource request, outside the property)
+    "list(%s[%s:%s])" % (st_, a_, b_) for st_ in ("iota(0)", "cycle([1, 2])", "(iota(0) lazy_map (*2))", "(repeat(1) zip iota(0))", "(2 iterate (*2))")
+    for a_ in ("", "0", "1", "3") for b_ in ("0", "1", "2", "5")
+] + [
+    "%s[%s]" % (st_, a_) for st_ in ("iota(0)", "cycle([1, 2])", "(iota(0) lazy_map (*2))") for a_ in ("0", "3", "1.5", "\"a\"", "null", "[]")
+] + [
     "%(A)s::precedence = %(B)s", "freeze (\\p -> p + %(A)s)", "F\"{%(A)s}\"", "%(A)s . %(B)s", "%(A)s then %(B)s", "%(A)s <=> %(B)s",
 ]
 OPS = ["+", "-", "*", "/", "%", "//", "%%", "/!", "^", "&", "|", "~", "<<", ">>", "==", "<", "<=", "max", "gcd", "lcm", "++", "**", ".+", "+.", "..",
@@ -251,7 +260,7 @@ def check_stmts(nl, cases, ctx=None):
 WRAP = "(\\x, y, a, b, c -> try (%s) catch e__ -> \"caught\")([1, [2, 3], {\"k\": [4]}, \"str\", V(5, 6), B[7]], {\"a\": [1, 2], \"b\": 3}, 0, 0, 0)"
 GLOBAL_EFFECT = ("::precedence", "struct ")
 OPND3 = ["0", "1", "3", "(0-1)", "(2^63-1)", "(0-2^63)", "int(\"-9223372036854775808\")", "2^64", "(1/2)", "1.5", '"a"', '"é"', "[]", "[1, 2, 3]", '{"a": 1}', "V(1, 2)", "B[255]", "(1 to 3)",
-         "null", "(+1)", "x", "int", "{1: len}", "(2^64 - 2^64)", "(1 // 2)"]
+         "null", "(+1)", "x", "int", "{1: len}", "(2^64 - 2^64)", "(1 // 2)", "(1+2i)", "2i", "(0.0/0.0)", "(1.0/0.0)"]
 OPS_ENUM = ["+", "/", "%", "//", "%%", "/!", "^", "<<", "++", "**", ".+", "||", "zip", "til", "$", "!!", "max", "&", "=="]
 
 
